@@ -1457,6 +1457,8 @@ func (enc *IteratorEncoder) EncodeIterator(itr Iterator) error {
 		return enc.encodeFloatIterator(itr)
 	case IntegerIterator:
 		return enc.encodeIntegerIterator(itr)
+	case UnsignedIterator:
+		return enc.encodeUnsignedIterator(itr)
 	case StringIterator:
 		return enc.encodeStringIterator(itr)
 	case BooleanIterator:
